@@ -35,7 +35,32 @@ Rej == {[k |-> "reject", prim |-> "depth", text |-> t] : t \in {"Infinity", "2",
        \cup {[k |-> "reject", prim |-> "href", text |-> t] : t \in {"/a%zz", "http://[::1/x", "/%", "/a%2", "%gg"}}
        \cup {[k |-> "reject", prim |-> "httpdate", text |-> t] : t \in {"2021-03-01T12:00:00Z", "", "Mon, 32 Jan 2021 00:00:00 GMT", "20210301T120000Z", "yesterday", "1614600000"}}
        \cup {[k |-> "reject", prim |-> "icaldate", text |-> t] : t \in {"20210301T120000", "20210301", "2021-03-01T12:00:00Z", "", "20211301T000000Z", "20210301T250000Z", "20210301T120000+0100", "x"}}
-All == ETagCases \cup HrefCases \cup StatusCases \cup DepthCases \cup OwCases \cup TimeCases \cup Rej
+\* near misses: one token of a valid text replaced by something the grammar does not allow at that place
+Join(ts) == IF ts = << >> THEN "" ELSE FoldLeft(LAMBDA acc, t : acc \o t, "", ts)
+NearMisses(base, alts) == UNION {{Join([base EXCEPT ![i] = a]) : a \in alts[i]} : i \in DOMAIN alts} \ {Join(base)}
+HttpBase == <<"Mon", ", ", "01", " ", "Mar", " ", "2021", " ", "12", ":", "00", ":", "00", " ", "GMT">>
+HttpAlts == [i \in 1..15 |-> CASE i = 15 -> {"PST", "EST", "UTC", "CEST", "JST", "Z", "+0000", "gmt", "", "GMT+1", "-0800"}
+                               [] i = 9 -> {"24", "-1"}        \* (a one-digit hour and names in another letter case are read by Go's time package as what they plainly say: not listed)
+                               [] i = 11 -> {"60", "0"}
+                               [] i = 13 -> {"61", "0"}
+                               [] i = 3 -> {"00", "32", "1"}
+                               [] i = 5 -> {"Foo", "03"}
+                               [] i = 7 -> {"21", "20211"}
+                               [] i = 2 -> {" ", ","}
+                               [] i = 1 -> {"Mo", ""}
+                               [] OTHER -> {}]
+IcalBase == <<"2021", "03", "01", "T", "12", "00", "00", "Z">>
+IcalAlts == [i \in 1..8 |-> CASE i = 8 -> {"z", "", "+0000", "GMT", "ZZ"}
+                              [] i = 4 -> {"t", " ", ""}
+                              [] i = 2 -> {"13", "00", "3"}
+                              [] i = 3 -> {"32", "00"}
+                              [] i = 5 -> {"24", "1"}
+                              [] i = 6 -> {"60"}
+                              [] i = 7 -> {"61"}
+                              [] OTHER -> {"021", "20211"}]
+RejNear == {[k |-> "reject", prim |-> "httpdate", text |-> t] : t \in NearMisses(HttpBase, HttpAlts)}
+           \cup {[k |-> "reject", prim |-> "icaldate", text |-> t] : t \in NearMisses(IcalBase, IcalAlts)}
+All == RejNear \cup ETagCases \cup HrefCases \cup StatusCases \cup DepthCases \cup OwCases \cup TimeCases \cup Rej
 \* F0: the domains are what the statement says
 ASSUME Cardinality(DepthCases) = 3 /\ Cardinality(OwCases) = 2
 ASSUME \A c \in HrefCases : Len(c.segs) >= 1 /\ c.segs[1] # << >>
